@@ -448,9 +448,16 @@ def run(ctx):
             for j, (oqt, fu, src) in enumerate(foreign):
                 u = src or own[(ci + j) % len(own)]
                 ctx.nt((c, fu))
-                creation_and_conversion(L, db, c, qt, u, fu)
-                if j % (1 if ctx.tier == "quick" else 25) == 0 or src:
-                    arithmetic_simple(L, c, qt, u, fu, oqt)
+                try:
+                    creation_and_conversion(L, db, c, qt, u, fu)
+                    if j % (1 if ctx.tier == "quick" else 25) == 0 or src:
+                        arithmetic_simple(L, c, qt, u, fu, oqt)
+                except Exception as e:
+                    # the *valid* objects these sweeps start from could not be built (every refusal that is due is caught
+                    # inside must_raise): nothing is decided for this pair, and the run says so
+                    ctx.count("valid starting objects that could not be built")
+                    if not any(x.startswith("valid starting objects") for x in ctx.inconclusive):
+                        ctx.inconclusive.append("valid starting objects could not be built, e.g. (%s, %s): %s" % (c, fu, repr(e)[:120]))
             ctx.ev()
             if snapshot.registry(db, sample_conversions=False) != reg:
                 ctx.violation("registry-changed-by-failing-calls", {"category": c, "diff": snapshot.diff(reg, snapshot.registry(db, sample_conversions=False))}, replay={"category": c})
